@@ -16,42 +16,42 @@ Definition chunk_independent (avx2 : bool) : Prop :=
 (* "12" | "3 "  is one number *)
 Definition w_split : reader := mk_reader [([49; 50], None); ([51; 32], None)] EOF.
 Lemma number_split_fixed : forall avx2,
-  run avx2 4096 w_split = ([[49; 50; 51]], TIo EOF) /\ stream_values (rd_bytes w_split) EOF = ([[49; 50; 51]], TIo EOF).
+  run avx2 64 w_split = ([[49; 50; 51]], TIo EOF) /\ stream_values (rd_bytes w_split) EOF = ([[49; 50; 51]], TIo EOF).
 Proof. intros []; vm_compute; split; reflexivity. Qed.
 
 (* "-" | "5"  and  "1e" | "5" *)
 Definition w_sign : reader := mk_reader [([45], None); ([53], None)] EOF.
 Definition w_exp : reader := mk_reader [([49; 101], None); ([53], None)] EOF.
 Lemma sign_exp_split_fixed : forall avx2,
-  run avx2 4096 w_sign = ([[45; 53]], TIo EOF) /\ run avx2 4096 w_exp = ([[49; 101; 53]], TIo EOF).
+  run avx2 64 w_sign = ([[45; 53]], TIo EOF) /\ run avx2 64 w_exp = ([[49; 101; 53]], TIo EOF).
 Proof. intros []; vm_compute; split; reflexivity. Qed.
 
 (* 1 2 3 ... 9 in ONE read: nine values *)
 Definition w_swallow : reader :=
   mk_reader [([49; 32; 50; 32; 51; 32; 52; 32; 53; 32; 54; 32; 55; 32; 56; 32; 57; 32], None)] EOF.
 Lemma number_swallow_fixed : forall avx2,
-  run avx2 4096 w_swallow = stream_values (rd_bytes w_swallow) EOF /\ length (fst (run avx2 4096 w_swallow)) = 9%nat.
+  run avx2 64 w_swallow = stream_values (rd_bytes w_swallow) EOF /\ length (fst (run avx2 64 w_swallow)) = 9%nat.
 Proof. intros []; vm_compute; split; reflexivity. Qed.
 
 (* {"a":1} tru : an error, not a clean end; with a reader error as final condition, that error *)
 Definition w_tail (fin : ioerr) : reader :=
   mk_reader [([123; 34; 97; 34; 58; 49; 125; 32; 116; 114; 117], None)] fin.
 Lemma truncated_tail_fixed : forall avx2,
-  run avx2 4096 (w_tail EOF) = ([[123; 34; 97; 34; 58; 49; 125]], TSyntax) /\
+  run avx2 64 (w_tail EOF) = ([[123; 34; 97; 34; 58; 49; 125]], TSyntax) /\
   stream_values (rd_bytes (w_tail EOF)) EOF = ([[123; 34; 97; 34; 58; 49; 125]], TSyntax) /\
-  run avx2 4096 (w_tail (ErrR 3)) = ([[123; 34; 97; 34; 58; 49; 125]], TIo (ErrR 3)).
+  run avx2 64 (w_tail (ErrR 3)) = ([[123; 34; 97; 34; 58; 49; 125]], TIo (ErrR 3)).
 Proof. intros []; vm_compute; repeat split; reflexivity. Qed.
 
 (* [] x *)
 Definition w_garbage : reader := mk_reader [([91; 93; 32; 120], None)] EOF.
 Lemma garbage_tail_fixed : forall avx2,
-  run avx2 4096 w_garbage = ([[91; 93]], TSyntax) /\ stream_values (rd_bytes w_garbage) EOF = ([[91; 93]], TSyntax).
+  run avx2 64 w_garbage = ([[91; 93]], TSyntax) /\ stream_values (rd_bytes w_garbage) EOF = ([[91; 93]], TSyntax).
 Proof. intros []; vm_compute; split; reflexivity. Qed.
 
 (* [] ] *)
 Definition w_stuck : reader := mk_reader [([91; 93; 32; 93], None)] EOF.
 Lemma stray_closer_fixed : forall avx2,
-  run avx2 4096 w_stuck = ([[91; 93]], TSyntax) /\ stream_values (rd_bytes w_stuck) EOF = ([[91; 93]], TSyntax).
+  run avx2 64 w_stuck = ([[91; 93]], TSyntax) /\ stream_values (rd_bytes w_stuck) EOF = ([[91; 93]], TSyntax).
 Proof. intros []; vm_compute; split; reflexivity. Qed.
 
 (* ---- what is still false of the repaired code: full strength over ALL streams and readers.
@@ -60,21 +60,21 @@ Proof. intros []; vm_compute; split; reflexivity. Qed.
    model (= real code): the reader's error only. *)
 Definition w_numrun : reader := mk_reader [([45; 53; 53; 55; 45], None)] (ErrR 1).
 Lemma number_run_before_reader_error_witness : forall avx2,
-  run avx2 4096 w_numrun = ([], TIo (ErrR 1)) /\
+  run avx2 64 w_numrun = ([], TIo (ErrR 1)) /\
   stream_values (rd_bytes w_numrun) (ErrR 1) = ([[45; 53; 53; 55]], TIo (ErrR 1)).
 Proof. intros []; vm_compute; split; reflexivity. Qed.
 
 Theorem chunk_independent_refuted : forall avx2, ~ chunk_independent avx2.
 Proof.
   intros avx2 H.
-  specialize (H 4096%nat w_numrun ltac:(lia) eq_refl).
+  specialize (H 64%nat w_numrun ltac:(lia) eq_refl).
   destruct (number_run_before_reader_error_witness avx2) as [A B]. rewrite A in H.
   change (rfin w_numrun) with (ErrR 1) in H. rewrite B in H. discriminate H.
 Qed.
 
 (* Buffered() after a terminal error used to panic (scanp survived setErr, the buffer did not); repaired in d6563a0 *)
 Lemma buffered_after_error_fixed : forall avx2,
-  Buffered (snd (decode_all (skip_one_fast avx2) inner_decode 5 (new_decoder (w_tail EOF) 4096))) = Some [].
+  Buffered (snd (decode_all (skip_one_fast avx2) inner_decode 5 (new_decoder (w_tail EOF) 64))) = Some [].
 Proof. intros []; vm_compute; reflexivity. Qed.
 
 (* ---- encoder: the writer that fails on the newline *)
@@ -82,3 +82,14 @@ Definition w_nl : writer := {| wresp := [(2%nat, None); (0%nat, Some (WErr 7))];
 Lemma enc_newline_error_fixed :
   Encode (Some [123; 125]) None true w_nl = (EErr (WErr 7), {| wresp := []; wgot := [123; 125] |}).
 Proof. vm_compute. reflexivity. Qed.
+
+(* all former witnesses at once (statement of Props.C17_former_witnesses_fixed) *)
+Lemma former_witnesses_fixed : forall avx2,
+  run avx2 64 w_split = stream_values (rd_bytes w_split) EOF /\
+  run avx2 64 w_sign = ([[45; 53]], TIo EOF) /\ run avx2 64 w_exp = ([[49; 101; 53]], TIo EOF) /\
+  run avx2 64 w_swallow = stream_values (rd_bytes w_swallow) EOF /\
+  run avx2 64 (w_tail EOF) = stream_values (rd_bytes (w_tail EOF)) EOF /\ snd (run avx2 64 (w_tail EOF)) = TSyntax /\
+  run avx2 64 w_garbage = stream_values (rd_bytes w_garbage) EOF /\
+  run avx2 64 w_stuck = stream_values (rd_bytes w_stuck) EOF /\ snd (run avx2 64 w_stuck) = TSyntax /\
+  fst (Encode (Some [123; 125]) None true w_nl) = EErr (WErr 7).
+Proof. intros []; vm_compute; repeat split; reflexivity. Qed.
